@@ -57,6 +57,11 @@ func schedRun(args []string) error {
 			unclean++
 		}
 	}
+	if unclean == 0 {
+		for i, b := range []int{1, 40, 150} {
+			rn.RunPipe(i+1, b)
+		}
+	}
 	fmt.Printf("{\"walks\":%d,\"steps\":%d,\"events\":%d,\"stalls\":%d,\"unclean\":%d,\"skipped\":%d}\n", rn.Walks, rn.Steps, sink.N, rn.Stalls, unclean, skipped)
 	return nil
 }
